@@ -30,8 +30,9 @@ Fixpoint zget {A} (k : Z) (l : list (Z * A)) : option A :=
   match l with [] => None | (k', v) :: r => if k' =? k then Some v else zget k r end.
 Fixpoint zset {A} (k : Z) (v : A) (l : list (Z * A)) : list (Z * A) :=
   match l with [] => [(k, v)] | (k', v') :: r => if k' =? k then (k, v) :: r else (k', v') :: zset k v r end.
+(* KV-store delete: the key is gone afterwards *)
 Fixpoint zdel {A} (k : Z) (l : list (Z * A)) : list (Z * A) :=
-  match l with [] => [] | (k', v') :: r => if k' =? k then r else (k', v') :: zdel k r end.
+  match l with [] => [] | (k', v') :: r => if k' =? k then zdel k r else (k', v') :: zdel k r end.
 Definition zhas {A} (k : Z) (l : list (Z * A)) : bool := match zget k l with Some _ => true | None => false end.
 (* Go map built by a loop: the last entry for a key wins *)
 Definition zget_last {A} (k : Z) (l : list (Z * A)) : option A := zget k (rev l).
